@@ -83,6 +83,16 @@ def sincos(p):
     return p
 
 
+def cossin(p):
+    """the other orientation: cos^2 -> 1 - sin^2"""
+    for a in sorted(p.atoms()):
+        k = P.atom_key(a)
+        if k[0] == 'fn:cos':
+            s_ = Poly.atom(('fn:sin',) + k[1:])
+            p = P.reduce_ideal(p, a, ONE - s_ * s_, deg=2)
+    return p
+
+
 def trig_sign(p, pc=None):
     """cos(-x) -> cos(x), sin(-x) -> -sin(x): canonical sign of the argument of every sin/cos atom (also inside other atoms is not needed here)"""
     for a in sorted(p.atoms()):
@@ -389,6 +399,72 @@ def zero_in_all_sign_cases(p, pc, post):
     return True
 
 
+def clear_invsqrt(p, pc):
+    """multiply p by the smallest even power of sqrt(Q) that removes every inv(sqrt(Q)) / sqrt(Q) atom (a single Q), returning a polynomial
+    free of them: p == 0 iff the result == 0 wherever Q != 0.  None if p mixes several such Q or odd powers remain."""
+    rho = [a for a in p.atoms() if P.atom_key(a)[0] == 'inv' and len(P.atom_key(a)[1][1].t) == 1 and
+           any(P.atom_key(x)[0] == 'sqrt' for m in P.atom_key(a)[1][1].t for x in m)]
+    sq = [a for a in p.atoms() if P.atom_key(a)[0] == 'sqrt']
+    qs = set()
+    for a in rho:
+        (m, c), = P.atom_key(a)[1][1].t.items()
+        if len(m) != 1 or c != 1:
+            return None
+        qs.add(m[0])
+    qs |= set(sq)
+    if not qs:
+        return p
+    if len(qs) != 1:
+        return None
+    (sa,) = qs
+    Q = P.atom_key(sa)[1][1]
+    ra = rho[0] if rho else None
+    # p = sum_m c * sa^i * ra^j * rest ; net power of sqrt(Q): i - j
+    net = {}
+    for m, c in p.t.items():
+        e = m.count(sa) - (m.count(ra) if ra is not None else 0)
+        rest = tuple(x for x in m if x != sa and x != ra)
+        net.setdefault(e, Poly())
+        net[e] = net[e] + Poly({rest: c})
+    lo = min(net)
+    if any((e - lo) % 2 for e in net):
+        return None
+    out = Poly()
+    for e, q in net.items():
+        out = out + q * _ppow(Q, (e - lo) // 2)
+    return out
+
+
+def _ppow(q, n):
+    r = ONE
+    for _ in range(n):
+        r = r * q
+    return r
+
+
+def enumerate_rows(terms, limit=12, rels=('lt', 'gt')):
+    """all valuations of the comparison atoms the terms need (order relations of operand pairs; booleans for other conditions):
+    [(vals, polys, ctx)], atoms, infos   or None when more than `limit` atoms are needed"""
+    import itertools
+    atoms, infos = [], {}
+    while True:
+        need = None
+        rows = []
+        for vals in itertools.product(*[(rels if a_[0] == 'pair' else (False, True)) for a_ in atoms]):
+            ctxd = P.DecisionCtx(dict(zip(atoms, vals)))
+            try:
+                rows.append((vals, tuple(ctxd.fpoly(t) for t in terms), ctxd))
+            except P.NeedAtom as e:
+                need = e
+                break
+        if need is None:
+            return rows, atoms, infos
+        if len(atoms) >= limit:
+            return None
+        atoms.append(need.key)
+        infos[need.key] = need.info
+
+
 def quat_cast_cases(T, lay, cfg, qt, m3, kt, tg):
     k = K('qcast_rt_' + kt, [Par('o', qt, False), Par('q', qt)], '*o = quat_cast(mat3_cast(*q));', cfg)
     nm = 'quat_cast(mat3_cast(q))<%s>' % tg
@@ -399,23 +475,10 @@ def quat_cast_cases(T, lay, cfg, qt, m3, kt, tg):
         q = qin('q', qt)
         res = []
         # enumerate the valuations of the comparison atoms (the largest-of-four selection)
-        atoms, infos = [], {}
-        while True:
-            need = None
-            rows = []
-            for vals in itertools.product(*[(('lt', 'gt') if a_[0] == 'pair' else (False, True)) for a_ in atoms]):
-                ctxd = P.DecisionCtx(dict(zip(atoms, vals)))
-                try:
-                    rows.append((vals, tuple(ctxd.fpoly(lanes[c]) for c in 'wxyz'), ctxd))
-                except P.NeedAtom as e:
-                    need = e
-                    break
-            if need is None:
-                break
-            if len(atoms) >= 12:
-                return [R.ob(nm, 'quat_cast', R.UNDECIDED, 'more than 12 comparison atoms: %s' % (atoms[-1],))]
-            atoms.append(need.key)
-            infos[need.key] = need.info
+        er = enumerate_rows([lanes[c] for c in 'wxyz'])
+        if er is None:
+            return [R.ob(nm, 'quat_cast', R.UNDECIDED, 'more than 12 comparison atoms')]
+        rows, atoms, infos = er
         distinct = {}
         for vals, got, ctxd in rows:
             distinct.setdefault(tuple(g.key() for g in got), (vals, got, ctxd))
@@ -527,13 +590,163 @@ def two_vector_cases(T, lay, cfg, qt, v3, kt, tg, sc):
                         else 'residual %s' % P.show_poly(iv, limit=5), kernel=k.source()))
         return res
     cs.append(R.Case(nm, [k], guard(nm, [k], body)))
+    # gtx rotation(orig, dest) for unit vectors: generic arm (Stan Melax): q = (s/2, (u x v)/s), s = sqrt(2 (1 + u.v))
+    k2 = K('rotation_uv_' + kt, [Par('o', qt, False), pU, pV], '*o = rotation(*u, *v);', cfg)
+    nm2 = 'rotation(u,v)<%s>' % tg
+
+    def body2(ctx):
+        lanes = L.out_lanes(ctx, k2, qt)
+        er = enumerate_rows([lanes[c] for c in 'wxyz'])
+        if er is None:
+            return [R.ob(nm2, 'two_vectors', R.UNDECIDED, 'more than 12 comparison atoms')]
+        rows, atoms, infos = er
+        up, vp = vin('u', v3), vin('v', v3)
+        (ua,), = [m for m in up[2].t]
+        (va,), = [m for m in vp[2].t]
+        units = lambda x: P.reduce_ideal(P.reduce_ideal(x, ua, ONE - up[0] * up[0] - up[1] * up[1], deg=2), va, ONE - vp[0] * vp[0] - vp[1] * vp[1], deg=2)
+        def post(x):
+            y = clear_invsqrt(P.reduce_inv(x), ctxd_box[0])
+            return units(y) if y is not None else units(P.reduce_inv(P.reduce_sqrt(x)))
+        ctxd_box = [None]
+        dot_ = sum((a_ * b_ for a_, b_ in zip(up, vp)), Poly())
+        res = []
+        seen = set()
+        kinds = set()
+        for vals, got, ctxd in rows:
+            key = tuple(g.key() for g in got)
+            if key in seen:
+                continue
+            seen.add(key)
+            if got[0] == ONE and all(g.is_zero() for g in got[1:]):
+                kinds.add('identity')
+                continue
+            if not any(P.atom_key(a)[0] == 'sqrt' and P.atom_key(a)[1][1] == (ONE + dot_).scale(2) for g in got for a in P.lane_atoms([]) | set().union(*[set(x.atoms()) | {b for y in x.atoms() if P.atom_key(y)[0] == 'inv' for b in P.atom_key(y)[1][1].atoms()} for x in got])):
+                kinds.add('opposite')
+                continue
+            kinds.add('generic')
+            ctxd_box[0] = ctxd
+            img = sandwich(got, up)[1:]
+            par = [img[1] * vp[2] - img[2] * vp[1], img[2] * vp[0] - img[0] * vp[2], img[0] * vp[1] - img[1] * vp[0]]
+            okp = all(post(x).is_zero() for x in par)
+            n2 = post(qnorm2(got) - ONE)
+            iv = post(sum((a_ * b_ for a_, b_ in zip(img, vp)), Poly()) - ONE)
+            ok = okp and n2.is_zero() and iv.is_zero()
+            res.append(R.ob('%s.generic_arm' % nm2, 'two_vectors', R.PROVED if ok else R.UNDECIDED,
+                            'for unit u, v: |q| = 1 and q (0,u) conj(q) == v (parallel to v with (image . v) == 1)' if ok else
+                            'parallel %s ; |q|^2 - 1 = %s ; image.v - 1 = %s' % (okp, P.show_poly(n2, limit=4), P.show_poly(iv, limit=4)), kernel=k2.source()))
+        if 'generic' not in kinds:
+            res.append(R.ob('%s.generic_arm' % nm2, 'two_vectors', R.UNDECIDED, 'no generic arm found (kinds: %s)' % sorted(kinds)))
+        if 'identity' in kinds:
+            res.append(R.ob('%s.same_direction_arm' % nm2, 'two_vectors', R.PROVED, 'u.v >= 1 - epsilon returns the identity quaternion', kernel=k2.source()))
+        return res
+    cs.append(R.Case(nm2, [k2], guard(nm2, [k2], body2)))
     return cs
 
 
 # ---- angleAxis(angle(q), axis(q)) -----------------------------------------------------------------------------------------------------------------------
 
+def inv_trig(p, pc):
+    """cos / sin of  k0 +- acos(u) | asin(u)  with k0 in {0, pi}:  cos(acos u) = u, sin(acos u) = sqrt(1 - u^2), sin(asin u) = u, cos(asin u) = sqrt(1 - u^2)
+    (principal values: the square roots are the non-negative ones), cos(pi - t) = -cos t, sin(pi - t) = sin t, cos(-t) = cos t, sin(-t) = -sin t"""
+    import math
+    for a in sorted(p.atoms()):
+        k = P.atom_key(a)
+        if k[0] not in ('fn:cos', 'fn:sin') or len(k) != 2:
+            continue
+        A = k[1][1]
+        k0 = A.t.get((), Fraction(0))
+        rest = {m: c for m, c in A.t.items() if m != ()}
+        if len(rest) != 1:
+            continue
+        (m, c), = rest.items()
+        if len(m) != 1 or c not in (1, -1):
+            continue
+        kk = P.atom_key(m[0])
+        if kk[0] not in ('fn:acos', 'fn:asin') or len(kk) != 2:
+            continue
+        u = kk[1][1]
+        root = Poly.atom(('sqrt', ('P', ONE - u * u)))
+        C, S_ = (u, root) if kk[0] == 'fn:acos' else (root, u)
+        if c == -1:
+            S_ = -S_
+        if k0 == 0:
+            pass
+        elif abs(float(k0) - math.pi) < 1e-5:
+            C, S_ = -C, -S_           # cos(pi + x) = -cos x ; sin(pi + x) = -sin x   (x = +-theta already folded in)
+        else:
+            continue
+        p = p.subst(a, C if k[0] == 'fn:cos' else S_)
+    return p
+
+
 def angle_axis_roundtrip(T, lay, cfg, qt, v3, kt, tg, sc):
-    return []
+    k = K('aa_rt_' + kt, [Par('o', qt, False), Par('q', qt)], '*o = angleAxis(angle(*q), axis(*q));', cfg)
+    nm = 'angleAxis(angle(q),axis(q))<%s>' % tg
+
+    def body(ctx):
+        import itertools
+        lanes = L.out_lanes(ctx, k, qt)
+        er = enumerate_rows([lanes[c] for c in 'wxyz'])
+        if er is None:
+            return [R.ob(nm, 'axis_angle', R.UNDECIDED, 'more than 12 comparison atoms')]
+        rows, atoms, infos = er
+        q = qin('q', qt)
+        res = []
+        seen = {}
+        for vals, got, ctxd in rows:
+            # sign of w fixed by the row (if the row compares w with 0)
+            wsign = None
+            infeasible = False
+            for at, v in zip(atoms, vals):
+                if at[0] != 'pair':
+                    continue
+                pa, pb = infos[at]
+                if pb.is_zero() and pa == q[0]:
+                    wsign = -1 if v == 'lt' else 1
+                if pa.is_zero() and pb == q[0]:
+                    wsign = 1 if v == 'lt' else -1
+                # 1 - w^2 <= 0 is impossible for a unit quaternion except at w = +-1 (x = y = z = 0)
+                d_ = pa - pb
+                if (d_ == ONE - q[0] * q[0] and v == 'lt') or (d_ == q[0] * q[0] - ONE and v == 'gt'):
+                    infeasible = True
+            if infeasible:
+                continue
+            key = tuple(g.key() for g in got) + (wsign,)
+            if key in seen:
+                continue
+            seen[key] = True
+            ok = False
+            why = ''
+            for elim in range(4):
+                (ea,), = [m for m in q[elim].t]
+                repl = ONE - sum((q[j] * q[j] for j in range(4) if j != elim), Poly())
+                post = lambda x, ea=ea, repl=repl: P.reduce_ideal(x, ea, repl, deg=2)
+                good = True
+                for i in range(4):
+                    g = inv_trig(got[i], ctxd)
+                    g = renorm_atoms(g, lambda x: post(P.reduce_sqrt(x)), ctxd)
+                    g = P.reduce_sqrt(g)
+                    fa = sorted(fabs_atoms(g))
+                    signs = {}
+                    for a in fa:
+                        if P.atom_key(a)[1][1] == q[0] and wsign is not None:
+                            signs[a] = wsign
+                    d = g - q[i]
+                    if signs:
+                        d = subst_abs(d, signs, ctxd)
+                    d = post(P.reduce_inv(d))
+                    if not d.is_zero():
+                        good = False
+                        why = 'lane %s: residual %s' % ('wxyz'[i], P.show_poly(d, limit=4))
+                        break
+                if good:
+                    ok = True
+                    break
+            regime = ', '.join('%s %s %s' % (P.show_poly(infos[at][0], limit=2), {'lt': '<', 'gt': '>'}.get(v, v), P.show_poly(infos[at][1], limit=2)) for at, v in zip(atoms, vals) if at[0] == 'pair')
+            res.append(R.ob('%s.regime%d' % (nm, len(res)), 'axis_angle', R.PROVED if ok else R.UNDECIDED,
+                            ('rebuilds q in the regime [%s]' % regime) if ok else ('regime [%s]: %s' % (regime, why)), kernel=k.source()))
+        return res
+    return [R.Case(nm, [k], guard(nm, [k], body))]
 
 
 # ---- Euler angle matrices ----------------------------------------------------------------------------------------------------------------------------------
@@ -593,7 +806,86 @@ def euler_cases(T, cfg, kt, tg, sc, m4, m3, v3):
                                    text='== eulerAngleY(z) * eulerAngleX(x) * eulerAngleZ(y)') for lane in sorted(a)]
         nm = '%s(vec3)<%s>' % (fn_, tg)
         cs.append(R.Case(nm, [k1, k2], guard(nm, [k1, k2], body)))
+    # ---- extractEulerAngleABC(eulerAngleABC(a, b, c)) -----------------------------------------------------------------------------
+    for axes in AXES3:
+        k = K('extract%s_%s' % (axes, kt), [Par('o', v3, False)] + ps,
+              '{ %s t1, t2, t3; extractEulerAngle%s(eulerAngle%s(*a, *b, *c), t1, t2, t3); o->x = t1; o->y = t2; o->z = t3; }' % (sc.cpp, axes, axes), cfg)
+        nm = 'extractEulerAngle%s<%s>' % (axes, tg)
+        cs.append(R.Case(nm, [k], guard(nm, [k], lambda ctx, k=k, nm=nm, axes=axes: extract_body(ctx, k, nm, axes, sc, v3))))
     return cs
+
+
+def extract_body(ctx, k, nm, axes, sc, v3):
+    """each returned angle is  s * atan2(y, x)  with (y, x) == lambda * (sin(s t), cos(s t)) for the angle t it must reproduce, lambda the regime factor"""
+    pc = P.PCtx()
+    out = poly_lanes(ctx, k, v3, pc)
+    ang = [L.in_atom(n_, sc, 0) for n_ in 'abc']
+    sn = [Poly.atom(('fn:sin', ('P', a_))) for a_ in ang]
+    cs_ = [Poly.atom(('fn:cos', ('P', a_))) for a_ in ang]
+    proper = axes[0] == axes[2]                         # ABA: regime sin b > 0 ; ABC: regime cos b > 0
+    regime_atom = (sn if proper else cs_)[1]
+    regime = 'sin(b) > 0' if proper else 'cos(b) > 0'
+    known = {}                                          # atan2 atom -> (sign, index of the angle)
+
+    def rewrite(q):
+        # sin / cos of an already identified atan2
+        for a in sorted(q.atoms()):
+            kk = P.atom_key(a)
+            if kk[0] in ('fn:sin', 'fn:cos') and len(kk) == 2:
+                A = kk[1][1]
+                if len(A.t) == 1:
+                    (m, c), = A.t.items()
+                    if len(m) == 1 and m[0] in known and c in (1, -1):
+                        sg, idx = known[m[0]]
+                        sg = sg * int(c)
+                        q = q.subst(a, (sn[idx].scale(sg)) if kk[0] == 'fn:sin' else cs_[idx])
+        q = sincos(trig_sign(q))
+        # square roots of perfect squares -> |.| -> the regime's sign
+        def sq_arg(x):
+            x = sincos(trig_sign(x))
+            if len(x.t) > 1:
+                y = cossin(x)               # the other orientation of sin^2 + cos^2 = 1 may expose the perfect square
+                if len(y.t) < len(x.t):
+                    return y
+            return x
+        q = renorm_atoms(q, sq_arg, pc)
+        q = sqrt_square(q, pc)
+        signs = {a: 1 for a in fabs_atoms(q) if P.atom_key(a)[1][1] == regime_atom}
+        if signs:
+            q = subst_abs(q, signs, pc)
+        return sincos(q)
+    res = []
+    for i in range(3):
+        oid = '%s.t%d' % (nm, i + 1)
+        p_ = out[i]
+        if len(p_.t) != 1:
+            res.append(R.ob(oid, 'euler_extract', R.UNDECIDED, 'angle %d is not +-atan2(..): %s' % (i + 1, P.show_poly(p_, limit=3)), kernel=k.source()))
+            return res
+        (m, c), = p_.t.items()
+        if len(m) != 1 or c not in (1, -1) or P.atom_key(m[0])[0] != 'fn:atan2':
+            res.append(R.ob(oid, 'euler_extract', R.UNDECIDED, 'angle %d is not +-atan2(..): %s' % (i + 1, P.show_poly(p_, limit=3)), kernel=k.source()))
+            return res
+        sg = int(c)
+        kk = P.atom_key(m[0])
+        y, x = rewrite(kk[1][1]), rewrite(kk[2][1])
+        cross_ = sincos(y * cs_[i] - x * sn[i].scale(sg))
+        lam = sincos(y * sn[i].scale(sg) + x * cs_[i])
+        lam_ok = False
+        if len(lam.t) == 1:
+            (lm, lc), = lam.t.items()
+            lam_ok = lc > 0 and all(a == list(regime_atom.t)[0][0] for a in lm) and len(lm) <= 1
+        if cross_.is_zero() and lam_ok:
+            res.append(R.ob(oid, 'euler_extract', R.PROVED, 't%d = %satan2(y, x) with (y, x) = %s * (sin, cos)(%st%d): reproduces t%d for t%d in (-pi, pi]%s' % (
+                i + 1, '-' if sg < 0 else '', P.show_poly(lam), '-' if sg < 0 else '', i + 1, i + 1, i + 1, '' if lam == ONE else ' where ' + regime), kernel=k.source()))
+        else:
+            real = not cross_.is_zero() and P.find_witness('gt', regime_atom, [cross_]) is not None
+            res.append(R.ob(oid, 'euler_extract', R.REFUTED if real else R.UNDECIDED,
+                            'atan2 arguments of t%d are not a positive multiple of (sin, cos) of the angle (regime %s): y cos t - %sx sin t = %s ; factor = %s' % (
+                                i + 1, regime, '-' if sg < 0 else '', P.show_poly(cross_, limit=4), P.show_poly(lam, limit=4)), kernel=k.source()))
+            if not (cross_.is_zero()):
+                return res
+        known[m[0]] = (sg, i)
+    return res
 
 
 def cases(tier):
